@@ -46,6 +46,9 @@ Record CountInv (s : state) (k : list frame) : Prop := {
   ci_range : forall o, nth_error (heap_of s) o = None ->
       W (sw_strong o) s k = 0 /\ W (sw_weak o) s k = 0 /\ n_after o k = 0 /\ n_fin o k = 0 /\
       n_leak o (log s) = 0;
+  (* only destroyed objects have leaked obligations *)
+  ci_leak : forall o b, nth_error (heap_of s) o = Some b -> 0 < n_leak o (log s) ->
+      strong b = Uninit;
 }.
 
 (** ** C01: handles held by the program or by values inside boxes target live objects *)
@@ -118,7 +121,8 @@ Definition countinvb (s : state) (k : list frame) : bool :=
         (weak b =? W (sw_weak o) s k + liveN b + n_after o k + n_fin o k + n_leak o (log s)) &&
         (if is_dying b then n_after o k + n_leak o (log s) =? 1 else n_after o k =? 0) &&
         (if 0 <? n_fin o k then
-           match strong b, links b with Uninit, None => true | _, _ => false end else true)
+           match strong b, links b with Uninit, None => true | _, _ => false end else true) &&
+        (if 0 <? n_leak o (log s) then is_uninit (strong b) else true)
     end).
 
 (** every oid mentioned by a handle or an obligation *)
